@@ -16,7 +16,9 @@ def constructor_state(ck, rule):
     f = prog.func("objects.Fxp.__init__")
     ck.saw(f)
     n_dict = 0
-    for n in ast.walk(f.node):
+    from ..common import walk_closure
+    nodes = [n for _, n in walk_closure(prog, f)]          # the constructor and the helpers extracted from it
+    for n in nodes:
         if isinstance(n, ast.Assign) and any(dotted(t) == "self.__dict__" for t in n.targets):
             n_dict += 1
             v = n.value
@@ -35,14 +37,26 @@ def constructor_state(ck, rule):
     def is_status_literal(s):
         return isinstance(s, ast.Assign) and any(dotted(t) == "self.status" for t in s.targets) and isinstance(s.value, ast.Dict) \
             and all(isinstance(v, ast.Constant) and v.value is False for v in s.value.values)
-    # order: index of last top-level statement containing a __dict__ copy vs index of the status literal at top level
-    idx_copy = max([i for i, s in enumerate(body) if any(isinstance(n, ast.Assign) and any(dotted(t) == "self.__dict__" for t in n.targets) for n in ast.walk(s))] or [-1])
-    idx_stat = [i for i, s in enumerate(body) if is_status_literal(s)]
-    idx_store = [i for i, s in enumerate(body) if any(isinstance(c.func, ast.Attribute) and c.func.attr in ("set_val", "resize", "_init_size") and dotted(c.func.value) == "self" for c in calls_in(s))]
-    good = bool(idx_stat) and idx_stat[-1] > idx_copy and (not idx_store or idx_stat[-1] < min(idx_store))
-    ck.check(good, rule, f, "a fresh all-False status record is installed unconditionally after the like/template copy and before sizing/storing",
-             "status literal at top-level position %s, state copy at %s, first sizing/storing at %s" % (idx_stat, idx_copy, min(idx_store) if idx_store else None), f.node,
-             "objects built with like=/template would inherit the template's raised flags (or keep sharing its record)")
+    # path-based: on every normal path the fresh record is stored after the last replacement of the attribute record and before sizing/storing
+    okstat = True
+    n_paths = 0
+    for pf in fpaths(prog, f):
+        if pf.end == "raise":
+            continue
+        n_paths += 1
+        repl_ = [i for i, (k, o) in enumerate(pf.order) if k == "store" and o.path == "self.__dict__"]
+        stat_ = [i for i, (k, o) in enumerate(pf.order) if k == "store" and o.path == "self.status" and isinstance(o.value, ast.Dict)
+                 and all(isinstance(v, ast.Constant) and v.value is False for v in o.value.values)]
+        use_ = [i for i, (k, o) in enumerate(pf.order) if k == "call" and isinstance(o.raw.func, ast.Attribute) and o.raw.func.attr in ("set_val", "resize", "_init_size")
+                and dotted(o.raw.func.value) == "self"]
+        if not stat_ or (repl_ and stat_[-1] < repl_[-1]) or (use_ and stat_[-1] > use_[0]):
+            okstat = False
+            ck.bad(rule, f, "a fresh all-False status record is installed after the like/template copy and before sizing/storing on every path",
+                   "status literal at order position %s, state copy at %s, first sizing/storing at %s" % (stat_[-1:] or None, repl_[-1:] or None, use_[:1] or None), f.node,
+                   "objects built with like=/template would inherit the template's raised flags (or keep sharing its record)")
+            break
+    if okstat:
+        ck.ok(rule, f, "fresh status record after the state copy and before sizing/storing on all %d normal paths" % n_paths)
     # mode keywords (rounding=, overflow=, ...) are applied to the configuration the object ends up with: on every normal path the
     # config.update(**kwargs) call follows the last replacement of self.config / self.__dict__ and precedes sizing/storing
     n_upd = 0
@@ -52,11 +66,11 @@ def constructor_state(ck, rule):
             continue
         upd = [i for i, (k, o) in enumerate(pf.order) if k == "call" and isinstance(o.raw.func, ast.Attribute) and o.raw.func.attr == "update"
                and dotted(o.raw.func.value) == "self.config" and any(kk.arg is None for kk in o.raw.keywords)]
-        repl = [i for i, (k, o) in enumerate(pf.order) if k == "store" and o.path in ("self.config", "self.__dict__") and o.depth == 0]
+        repl = [i for i, (k, o) in enumerate(pf.order) if k == "store" and o.path in ("self.config", "self.__dict__")]
         first_use = [i for i, (k, o) in enumerate(pf.order) if k == "call" and isinstance(o.raw.func, ast.Attribute) and o.raw.func.attr in ("set_val", "resize", "_init_size")
                      and dotted(o.raw.func.value) == "self"]
         if repl:
-            sc = [i for i, (k, o) in enumerate(pf.order) if k == "store" and o.path == "self.scaled" and o.depth == 0 and i > repl[-1]
+            sc = [i for i, (k, o) in enumerate(pf.order) if k == "store" and o.path == "self.scaled" and i > repl[-1]
                   and not (isinstance(o.value, ast.Constant) and o.value.value is None)]
             if not sc or (first_use and sc[-1] > first_use[0]):
                 if "scaled" not in seen_bad:
